@@ -613,7 +613,12 @@ func (t *Uint64Tree) NewScanner(key uint64) *Uint64Cursor {
 		n = child
 	}
 	ln := n.(*uint64LeafNode)
-	return newUint64Cursor(ln, uint64SearchGreaterThanOrEqualTo(key, ln.runts))
+	index := uint64SearchGreaterThanOrEqualTo(key, ln.runts)
+	if index < len(ln.runts) && ln.runts[index] < key {
+		// every key of this leaf is smaller than key: start at the next leaf
+		index++
+	}
+	return newUint64Cursor(ln, index)
 }
 
 // Uint64Cursor is used to enumerate key-value pairs from the tree in
